@@ -198,7 +198,7 @@ def run(rep, tier, seed):
     quick = tier == 'quick'
     consts = dict(Sizes={'empty', 'tiny', 'Lm1', 'L', 'Lp1', 'big'},
                   Contents={'emptyBytes', 'binary', 'newlines', 'placeholderText', 'random', 'base64ish'},
-                  LimitSrcs={'explicit', 'env'} if quick else {'explicit', 'env', 'envbig'},
+                  LimitSrcs={'explicit', 'env', 'envbig'},
                   Roles={'input', 'output'}, PathBys={'position', 'keyword'},
                   Cassettes={'memory', 'file', 's3'}, ReplayPaths={'same', 'other'})
     with tlc.Scratch() as s:
@@ -210,8 +210,14 @@ def run(rep, tier, seed):
             return
         finals = [g.states[n] for n in g.states if g.states[n]['phase'] == 'done']
     rnd = random.Random(seed)
-    chosen = finals
-    rep.exhaustive = True
+    if quick:
+        # the 3 MiB configurations move megabytes per trip: in the quick tier only on the in-memory cassette, one content class
+        chosen = [st for st in finals if st['cfg']['limitSrc'] != 'envbig' or
+                  (st['cfg']['cassette'] == 'memory' and st['cfg']['content'] in ('binary', 'emptyBytes', 'placeholderText'))]
+        rep.exhaustive = False
+    else:
+        chosen = finals
+        rep.exhaustive = True
     import multiprocessing as mp
     ctx = mp.get_context('fork')
     tasks = [(dict(st['cfg']), dict((k, st[k]) for k in ('recorded', 'restoredAt', 'restored', 'wasRead')), seed * 31 + i)
